@@ -45,26 +45,27 @@ def make_calculators(names, Efermi, has_AA):
     from wannierberri.calculators import static
     Ef = np.array(Efermi, dtype=float)
     internal = {"external_terms": False}
+    nf = dict(use_factor=False)   # natural units: results O(1), so absolute rounding floors are meaningful
     out = {}
     for n in names:
         if n == "ahc_int":
-            out[n] = static.AHC(Efermi=Ef, kwargs_formula=internal)
+            out[n] = static.AHC(Efermi=Ef, kwargs_formula=internal, **nf)
         elif n == "ahc":
-            out[n] = static.AHC(Efermi=Ef) if has_AA else static.AHC(Efermi=Ef, kwargs_formula=internal)
+            out[n] = static.AHC(Efermi=Ef, **nf) if has_AA else static.AHC(Efermi=Ef, kwargs_formula=internal, **nf)
         elif n == "cumdos":
-            out[n] = static.CumDOS(Efermi=Ef)
+            out[n] = static.CumDOS(Efermi=Ef, **nf)
         elif n == "dos":
-            out[n] = static.DOS(Efermi=Ef)
+            out[n] = static.DOS(Efermi=Ef, **nf)
         elif n == "ohmic_sea":
-            out[n] = static.Ohmic_FermiSea(Efermi=Ef)
+            out[n] = static.Ohmic_FermiSea(Efermi=Ef, **nf)
         elif n == "ohmic_surf":
-            out[n] = static.Ohmic_FermiSurf(Efermi=Ef)
+            out[n] = static.Ohmic_FermiSurf(Efermi=Ef, **nf)
         elif n == "cumdos_tetra":
-            out[n] = static.CumDOS(Efermi=Ef, tetra=True)
+            out[n] = static.CumDOS(Efermi=Ef, tetra=True, **nf)
         elif n == "ahc_tetra_int":
-            out[n] = static.AHC(Efermi=Ef, tetra=True, kwargs_formula=internal)
+            out[n] = static.AHC(Efermi=Ef, tetra=True, kwargs_formula=internal, **nf)
         elif n == "bd_sea_int":
-            out[n] = static.BerryDipole_FermiSea(Efermi=Ef, kwargs_formula=internal)
+            out[n] = static.BerryDipole_FermiSea(Efermi=Ef, kwargs_formula=internal, **nf)
         else:
             raise ValueError(n)
     return out
